@@ -343,19 +343,25 @@ class _rewrite_captured_vars(ast.NodeTransformer):
         self._ignore_stack.pop()
         return v
 
-    def _visit_comprehension(self, node: ast.AST) -> Any:
+    def _visit_comprehension(self, node: Any) -> Any:
         "The loop variables of a comprehension are local to it"
+        generators = node.generators
+        # The first iterable is evaluated in the enclosing scope
+        generators[0].iter = self.visit(generators[0].iter)
         self._ignore_stack.append(
-            [
-                n.id
-                for g in node.generators  # type: ignore
-                for n in ast.walk(g.target)
-                if isinstance(n, ast.Name)
-            ]
+            [n.id for g in generators for n in ast.walk(g.target) if isinstance(n, ast.Name)]
         )
-        v = super().generic_visit(node)
+        for index, g in enumerate(generators):
+            if index > 0:
+                g.iter = self.visit(g.iter)
+            g.ifs = [self.visit(c) for c in g.ifs]
+        if isinstance(node, ast.DictComp):
+            node.key = self.visit(node.key)
+            node.value = self.visit(node.value)
+        else:
+            node.elt = self.visit(node.elt)
         self._ignore_stack.pop()
-        return v
+        return node
 
     visit_ListComp = _visit_comprehension
     visit_GeneratorExp = _visit_comprehension
